@@ -23,6 +23,7 @@ type AttrCache struct {
 	maxSize        int           // Maximum number of entries in the cache
 	accessList     *list.List    // Doubly-linked list for O(1) LRU tracking
 	enableNegative bool          // Enable negative caching
+	epoch          uint64        // incremented by every invalidation; see Epoch
 }
 
 // CachedAttrs represents cached file attributes with expiration
@@ -201,10 +202,34 @@ func (c *AttrCache) removeFromAccessLog(path string) {
 	cached.listElement = nil
 }
 
+// Epoch returns a token that changes whenever anything is invalidated. A
+// caller that reads the filesystem and then caches what it saw takes the token
+// before the read and stores with PutIfCurrent / PutNegativeIfCurrent: if a
+// mutation completed (and invalidated) in between, the possibly stale result
+// is not stored.
+func (c *AttrCache) Epoch() uint64 {
+	c.mu.RLock()
+	defer c.mu.RUnlock()
+	return c.epoch
+}
+
+// PutIfCurrent is Put unless an invalidation happened since epoch was taken.
+func (c *AttrCache) PutIfCurrent(path string, attrs *NFSAttrs, epoch uint64) {
+	c.put(path, attrs, &epoch)
+}
+
 // Put adds or updates cached attributes
 func (c *AttrCache) Put(path string, attrs *NFSAttrs) {
+	c.put(path, attrs, nil)
+}
+
+func (c *AttrCache) put(path string, attrs *NFSAttrs, epoch *uint64) {
 	c.mu.Lock()
 	defer c.mu.Unlock()
+
+	if epoch != nil && *epoch != c.epoch {
+		return
+	}
 
 	// Check if entry already exists
 	existing, exists := c.cache[path]
@@ -253,8 +278,17 @@ func (c *AttrCache) Put(path string, attrs *NFSAttrs) {
 	c.updateAccessLog(path)
 }
 
+// PutNegativeIfCurrent is PutNegative unless an invalidation happened since epoch was taken.
+func (c *AttrCache) PutNegativeIfCurrent(path string, epoch uint64) {
+	c.putNegative(path, &epoch)
+}
+
 // PutNegative adds a negative cache entry (file not found)
 func (c *AttrCache) PutNegative(path string) {
+	c.putNegative(path, nil)
+}
+
+func (c *AttrCache) putNegative(path string, epoch *uint64) {
 	// Only store negative entries if enabled
 	c.mu.RLock()
 	enabled := c.enableNegative
@@ -267,6 +301,10 @@ func (c *AttrCache) PutNegative(path string) {
 
 	c.mu.Lock()
 	defer c.mu.Unlock()
+
+	if epoch != nil && *epoch != c.epoch {
+		return
+	}
 
 	// Check if entry already exists
 	existing, exists := c.cache[path]
@@ -309,6 +347,7 @@ func (c *AttrCache) Invalidate(path string) {
 	c.mu.Lock()
 	defer c.mu.Unlock()
 
+	c.epoch++
 	c.removeFromAccessLog(path)
 	delete(c.cache, path)
 }
@@ -320,6 +359,7 @@ func (c *AttrCache) InvalidateTree(path string) {
 	c.mu.Lock()
 	defer c.mu.Unlock()
 
+	c.epoch++
 	prefix := strings.TrimSuffix(path, "/") + "/"
 	for p := range c.cache {
 		if p == path || strings.HasPrefix(p, prefix) {
@@ -334,6 +374,7 @@ func (c *AttrCache) Clear() {
 	c.mu.Lock()
 	defer c.mu.Unlock()
 
+	c.epoch++
 	c.cache = make(map[string]*CachedAttrs)
 	c.accessList = list.New()
 }
@@ -381,6 +422,8 @@ func (c *AttrCache) NegativeStats() int {
 func (c *AttrCache) InvalidateNegativeInDir(dirPath string) {
 	c.mu.Lock()
 	defer c.mu.Unlock()
+
+	c.epoch++
 
 	// Find all negative entries that are children of this directory
 	toDelete := make([]string, 0)
@@ -492,6 +535,7 @@ type DirCache struct {
 	maxDirSize int
 	hits       uint64
 	misses     uint64
+	epoch      uint64 // incremented by every invalidation; see Epoch
 }
 
 // CachedDirEntry represents cached directory entries with expiration
@@ -565,10 +609,30 @@ func (c *DirCache) Get(path string) ([]os.FileInfo, bool) {
 	return entries, true
 }
 
+// Epoch returns a token that changes whenever a listing is invalidated (see AttrCache.Epoch).
+func (c *DirCache) Epoch() uint64 {
+	c.mu.RLock()
+	defer c.mu.RUnlock()
+	return c.epoch
+}
+
+// PutIfCurrent is Put unless an invalidation happened since epoch was taken.
+func (c *DirCache) PutIfCurrent(path string, entries []os.FileInfo, epoch uint64) {
+	c.put(path, entries, &epoch)
+}
+
 // Put adds or updates cached directory entries
 func (c *DirCache) Put(path string, entries []os.FileInfo) {
+	c.put(path, entries, nil)
+}
+
+func (c *DirCache) put(path string, entries []os.FileInfo, epoch *uint64) {
 	c.mu.Lock()
 	defer c.mu.Unlock()
+
+	if epoch != nil && *epoch != c.epoch {
+		return
+	}
 
 	// Don't cache directories that exceed the maximum size
 	if len(entries) > c.maxDirSize {
@@ -643,6 +707,7 @@ func (c *DirCache) Invalidate(path string) {
 	c.mu.Lock()
 	defer c.mu.Unlock()
 
+	c.epoch++
 	c.removeFromAccessList(path)
 	delete(c.entries, path)
 }
@@ -652,6 +717,7 @@ func (c *DirCache) InvalidateTree(path string) {
 	c.mu.Lock()
 	defer c.mu.Unlock()
 
+	c.epoch++
 	prefix := strings.TrimSuffix(path, "/") + "/"
 	for p := range c.entries {
 		if p == path || strings.HasPrefix(p, prefix) {
@@ -666,6 +732,7 @@ func (c *DirCache) Clear() {
 	c.mu.Lock()
 	defer c.mu.Unlock()
 
+	c.epoch++
 	c.entries = make(map[string]*CachedDirEntry)
 	c.accessList = list.New()
 }
